@@ -313,6 +313,9 @@ var spaceAsciiSet = makeASCIISet(" \t\r\n\f")
 
 // returns true if s is a whitespace-separated list that includes val.
 func matchInclude(val, s string, ignoreCase bool) bool {
+	if val == "" { // an empty value matches nothing
+		return false
+	}
 	for s != "" {
 		i := spaceAsciiSet.index(s)
 		if i == -1 {
@@ -346,6 +349,9 @@ func attributeDashMatch(key, val string, n *html.Node, ignoreCase bool) bool {
 // attributePrefixMatch returns a Selector that matches elements where
 // the attribute named key starts with val.
 func attributePrefixMatch(key, val string, n *html.Node, ignoreCase bool) bool {
+	if val == "" { // an empty value matches nothing
+		return false
+	}
 	return matchAttribute(n, key,
 		func(s string) bool {
 			if strings.TrimSpace(s) == "" {
@@ -361,6 +367,9 @@ func attributePrefixMatch(key, val string, n *html.Node, ignoreCase bool) bool {
 // attributeSuffixMatch matches elements where
 // the attribute named key ends with val.
 func attributeSuffixMatch(key, val string, n *html.Node, ignoreCase bool) bool {
+	if val == "" { // an empty value matches nothing
+		return false
+	}
 	return matchAttribute(n, key,
 		func(s string) bool {
 			if strings.TrimSpace(s) == "" {
@@ -376,6 +385,9 @@ func attributeSuffixMatch(key, val string, n *html.Node, ignoreCase bool) bool {
 // attributeSubstringMatch matches nodes where
 // the attribute named key contains val.
 func attributeSubstringMatch(key, val string, n *html.Node, ignoreCase bool) bool {
+	if val == "" { // an empty value matches nothing
+		return false
+	}
 	return matchAttribute(n, key,
 		func(s string) bool {
 			if strings.TrimSpace(s) == "" {
